@@ -236,8 +236,52 @@ def check_button(report: Report, tier: str) -> dict:
                     hist = [("signal", tuple(seq), {"mode": mode})]
                     report.violation(explore.history_key(ID, "Button", hist), f"Button[{mode}] signal {list(seq)}: {err}",
                                      {"subject": "Button", "signal": list(seq), "mode": mode, "message": err})
+    # operation histories: polls interleaved with set_pressed() calls (which do not poll).  on_click fires once
+    # per rising edge of the POLLED signal, whatever happened between two polls; with a provider the level is
+    # the provider's value at the poll and set_pressed() cannot add edges.
+    depth = 7 if tier == "thorough" else 6
+    for mode, tokens in (("set_pressed", ("p", "s0", "s1")), ("provider", ("p0", "p1", "s0", "s1"))):
+        for length in range(1, depth + 1):
+            for hist in itertools.product(tokens, repeat=length):
+                if not any(t.startswith("p") for t in hist):
+                    continue
+                n += 1
+                clicks = []
+                feed: List[int] = []
+                if mode == "provider":
+                    btn = Button(4, on_click=lambda: clicks.append(1), state_provider=lambda: feed.pop(0))
+                else:
+                    btn = Button(4, on_click=lambda: clicks.append(1))
+                level = 0
+                prev_polled = 0
+                want = 0
+                err = None
+                for i, t in enumerate(hist):
+                    if t in ("s0", "s1"):
+                        btn.set_pressed(t == "s1")
+                        if mode == "set_pressed":
+                            level = 1 if t == "s1" else 0
+                        continue
+                    if mode == "provider":
+                        level = 1 if t == "p1" else 0
+                        feed.append(level)
+                    got = btn.is_pressed()
+                    if level and not prev_polled:
+                        want += 1
+                    prev_polled = level
+                    if got != level:
+                        err = f"step {i}: is_pressed() = {got!r}, level {level}"
+                        break
+                    if len(clicks) != want:
+                        err = f"after step {i} on_click fired {len(clicks)} times, the polled signal had {want} rising edges"
+                        break
+                if err:
+                    h = [("ops", tuple(hist), {"mode": mode})]
+                    report.violation(explore.history_key(ID, "ButtonOps", h), f"Button[{mode}] history {list(hist)}: {err}",
+                                     {"subject": "ButtonOps", "ops": list(hist), "mode": mode, "message": err})
     report.evaluations += n
     report.add_sample({"subject": "Button", "signal": [0, 1, 1, 0, 1], "clicks": 2})
+    report.add_sample({"subject": "Button", "history": ["s1", "p", "s0", "s1", "p"], "clicks": 1})
     return {"sequences": n}
 
 
@@ -245,7 +289,7 @@ def check_pot_ultra(report: Report, tier: str) -> dict:
     from Reduino.Sensors import Potentiometer, Ultrasonic
 
     n = 0
-    pot_vals = [-1, 0, 1, 512, 1023, 1024, 5000]
+    pot_vals = [-1, 0, 1, 512, 1023, 1024, 5000, -1e-9, 1023.0000001]
     for seq in itertools.chain.from_iterable(itertools.product(pot_vals, repeat=k) for k in range(1, (4 if tier == "thorough" else 3))):
         n += 1
         it = iter(seq)
@@ -264,7 +308,7 @@ def check_pot_ultra(report: Report, tier: str) -> dict:
     n += 1
     if Potentiometer("A3").read() != 0:
         report.violation(explore.history_key(ID, "Potentiometer", [("default", (), {})]), "Potentiometer without provider must read 0", {"subject": "Potentiometer"})
-    us_vals = [-1, -0.001, 0, 0.0, 12.5, 400, 10 ** 6]
+    us_vals = [-1, -0.001, 0, 0.0, 12.5, 400, 10 ** 6, -1e-9, -1e-10, -5e-324, 0.3 - 3 * 0.1, 5e-324, 1e-10]
     for seq in itertools.chain.from_iterable(itertools.product(us_vals, repeat=k) for k in range(1, (4 if tier == "thorough" else 3))):
         n += 1
         it = iter(seq)
